@@ -23,6 +23,7 @@ type C08Case struct {
 	Neg    bool   `json:"neg,omitempty"`
 	Fwd    bool   `json:"fwd,omitempty"`
 	FIFO   bool   `json:"fifo,omitempty"`
+	Prep   string `json:"prep,omitempty"` // history before the call: "" | remove | reset | insertfront (re-allocated backing arrays)
 	Method string `json:"method,omitempty"`
 	I      int    `json:"i,omitempty"`
 	J      int    `json:"j,omitempty"`
@@ -134,6 +135,14 @@ func runC08Grid(c C08Case) (st Stats, err error) {
 	mk := func() (stackage.Stack, *ListModel) {
 		s := newStackOfKind(c.Kind, c.Cap)
 		m := &ListModel{Cap: c.Cap}
+		switch c.Prep {
+		case "remove":
+			s.Push("junk")
+			s.Remove(0)
+		case "reset":
+			s.Push("junk1", "junk2")
+			s.Reset()
+		}
 		for i := 0; i < c.Len; i++ {
 			var v any = tagValue(i + 1)
 			if i == c.NilAt {
@@ -141,6 +150,11 @@ func runC08Grid(c C08Case) (st Stats, err error) {
 			}
 			s.Push(v)
 			m.Push(v)
+		}
+		if c.Prep == "insertfront" && c.Len > 0 && c.NilAt != 0 {
+			first, _ := s.Index(0)
+			s.Remove(0)
+			s.Insert(first, 0)
 		}
 		if c.Neg {
 			s.SetNegativeIndices(true)
@@ -455,7 +469,8 @@ func enumC08(tier Tier, yield func(C08Case)) {
 					if capExtra >= 0 {
 						cp = L + capExtra
 					}
-					base := C08Case{Mode: "grid", Kind: kind, Cap: cp, Len: L, NilAt: nilAt, Neg: opt&1 != 0, Fwd: opt&2 != 0, FIFO: cfg%3 == 0}
+					base := C08Case{Mode: "grid", Kind: kind, Cap: cp, Len: L, NilAt: nilAt, Neg: opt&1 != 0, Fwd: opt&2 != 0, FIFO: cfg%3 == 0,
+						Prep: []string{"", "remove", "reset", "insertfront"}[cfg%4]}
 					for _, m := range intParamMethods {
 						two := m.Name == "Swap" || m.Name == "Less"
 						for _, i := range idx {
@@ -503,6 +518,7 @@ func genC08(t *rapid.T, tier Tier) C08Case {
 		if rapid.Bool().Draw(t, "hascap") {
 			c.Cap = L + rapid.IntRange(0, 2).Draw(t, "capextra")
 		}
+		c.Prep = rapid.SampledFrom([]string{"", "remove", "reset", "insertfront"}).Draw(t, "prep")
 		c.Method = intParamMethods[rapid.IntRange(0, len(intParamMethods)-1).Draw(t, "method")].Name
 		pick := func(label string) int {
 			switch rapid.IntRange(0, 5).Draw(t, label+"class") {
@@ -547,7 +563,7 @@ func genC08(t *rapid.T, tier Tier) C08Case {
 func init() {
 	Register(Def[C08Case]{
 		ID: "C08",
-		Rule: "exhaustive index grid: every Stack method with an int parameter (found by reflection: Index, Remove, Replace, Swap, Insert, Traverse, Less, Defrag, ...) x index values {MinInt, MinInt+1, -Len-1..Len+1, MaxInt-1, MaxInt} (all pairs for two-index methods) x lengths 0..4 (with/without a nil slot) x negative/forward index options x capacity none/Len+1 x kind; " +
+		Rule: "exhaustive index grid: every Stack method with an int parameter (found by reflection: Index, Remove, Replace, Swap, Insert, Traverse, Less, Defrag, ...) x index values {MinInt, MinInt+1, -Len-1..Len+1, MaxInt-1, MaxInt} (all pairs for two-index methods) x lengths 0..4 (with/without a nil slot) x negative/forward index options x capacity none/Len+1 x kind x LIFO/FIFO x stacks with a history (after Remove, Reset, front Insert: re-allocated backing arrays); " +
 			"exhaustive value catalogue: every Stack and Condition method with an `any`/Operator parameter x 3 passes over a catalogue of 65 awkward values (typed nils of any depth, zero Stacks/Conditions/aliases, funcs, chans, maps, NaN, private-field structs, pointers to pointers, operator-less Conditions, ...); " +
 			"rapid: wider indices and lengths, and sequences of 1..5 awkward calls on one Stack/Condition. Oracle: no panic; an index that addresses nothing => failure flag and identical snapshot (public getters + VerifDump); addressed indices act per the list model (option-translated Replace/Swap leniently); IsInit/Kind kept; " +
 			"afterwards String, Unmarshal, IsEqual (both ways, against a twin), Traverse/Index of every position, IsNesting, Front/Back, Valid, Less and then Reveal, Defrag, Reverse, Reset, Push all return normally. non-trivial = boundary index class (not in-range) or any awkward-value call; distinct = (method, index class, length, options) cell or (method, variant) sequence",
